@@ -483,25 +483,34 @@ _c20 = [
     dict(_pg, harness="VerifHarness_C20_postgres_scope", reach=["compared"]),
     dict(_lt, harness="VerifHarness_C20_sqlite", reach=["compared"]),
 ]
+_hclfull = dict(initallow=["math/big", "ariga.io/atlas/schemahcl/...", "github.com/zclconf/go-cty/...", "github.com/go-openapi/inflect",
+                           "github.com/hashicorp/hcl/v2/...", "github.com/apparentlymart/go-textseg/...", "github.com/agext/levenshtein",
+                           "github.com/mitchellh/go-wordwrap"])
+def _c20_hcl(dev):
+    return [dict(c, **_hclfull, harness="VerifHarness_C20_%s_hcl" % d, reach=["compared"], flags=["-mapdev", str(dev)])
+            for d, c in (("sqlite", _lt), ("mysql", _my), ("postgres", _pg))]
 PROPS["C20"] = dict(
     MIGRATE,
     replay_retries=20,
-    runs={"quick": _c20, "thorough": _c20},
+    runs={"quick": _c20 + _c20_hcl(1), "thorough": _c20 + _c20_hcl(2)},
     bounds={
         "quick": "schedule = iteration order of every `range` over a map inside ariga.io/atlas code (all permutations for maps of <=3 entries; identity, "
                  "reverse and one rotation beyond) x write order of 4 directory files x 4 declaration orders of a 3-table change set with chain / cycle / "
                  "diamond+self foreign keys, for the MySQL, PostgreSQL and SQLite planners, MemDir listing/checksum/sum file, DefaultFormatter, and the "
-                 "multi-schema rejection message",
-        "thorough": "same (the catalogue is the bound)",
+                 "multi-schema rejection message; HCL evaluation: 3 file sets (same base name in two directories; a foreign key across files; three "
+                 "files with two sharing a base name) per dialect, parsed by the real hclparse, evaluated (EvalHCL) and re-marshalled (MarshalHCL), "
+                 "with at most 1 map range per path iterating in a permuted order (-mapdev 1)",
+        "thorough": "same; HCL evaluation with at most 2 permuted map ranges per path",
     },
     assumptions=[
         "map iteration orders are explored by the engine's choice points (structural enumeration, stated in DESIGN.md 2.6/2.7); time.Now is the zero time",
         "each path computes the output once in insertion order and once in the chosen order and compares them",
     ],
-    outside="HCL marshalling (MarshalHCL), cross-process runs, goroutine interleavings / the race detector (the engine is single-threaded), "
+    outside="HCL documents beyond the three file sets, more simultaneous permuted map ranges than the bound, cross-process runs, goroutine interleavings / the race detector (the engine is single-threaded), "
             "pointer-address dependent behaviour, maps with more than 3 entries beyond three orders",
     claim="For every explored map-iteration order the planners' statements (and reverse statements), directory listings, sum files and formatted files "
-          "are byte-identical; permuting the declaration order of the change set yields the same multiset of statements and flags.",
+          "are byte-identical; permuting the declaration order of the change set yields the same multiset of statements and flags; evaluating "
+          "the same HCL files and marshalling the result gives the same bytes under every explored map order.",
     note="Schedule enumeration on the real SSA; no concurrency. Trusted: engine's ordered-map model (Go's real order is unspecified; every order the "
          "engine explores is a legal one).",
 )
